@@ -110,21 +110,36 @@ def exc_name(e):
 class Session:
     """ents[i] mirrors the model's entity i: kind, parent, alive, name, id"""
 
-    def __init__(self, path, clock):
+    def __init__(self, path, clock, keep=True):
         self.path = path
         self.clock = clock
         self.f = None
         self.ents = []
         self.counter = 0
+        # handles that stay alive next to the freshly fetched ones: entity index -> [(route, object)]
+        # (the object a create_* call returned, and objects obtained through links: mtag.positions, feature.data,
+        # group.data_arrays[name], entity.metadata ...); every time stamp is read through all of them
+        self.keep = keep
+        self.kept = {}
+        self.last_call = None
 
     # -- handles -------------------------------------------------------------------------
-    def fetch(self, i):
+    def fetch(self, i, memo=None):
+        """a freshly built handle of entity i (looked up from the file object down); `memo` shares the handles of
+        the owners within one reading pass"""
+        if memo is not None and i in memo:
+            return memo[i]
+        o = self._fetch(i, memo)
+        if memo is not None:
+            memo[i] = o
+        return o
+
+    def _fetch(self, i, memo):
         e = self.ents[i]
         k = e["kind"]
         if k == "file":
             return self.f
-        p = self.fetch(e["parent"])
-        pk = self.ents[e["parent"]]["kind"]
+        p = self.fetch(e["parent"], memo)
         n = e["name"]
         if k == "block":
             return p.blocks[n]
@@ -142,12 +157,48 @@ class Session:
     def alive(self, kind=None):
         return [i for i, e in enumerate(self.ents) if e["alive"] and (kind is None or e["kind"] == kind)]
 
+    # -- kept handles --------------------------------------------------------------------
+    def keep_handle(self, i, route, obj):
+        if not self.keep or obj is None or i is None:
+            return
+        try:
+            if self.ents[i]["kind"] != "file" and obj.id != self.ents[i]["id"]:
+                return
+        except Exception:
+            return
+        lst = self.kept.setdefault(i, [])
+        if len(lst) < 4 and all(r != route for r, _ in lst):
+            lst.append((route, obj))
+
+    def actor(self, i, h):
+        """the object an operation is performed through: h = 0 a freshly fetched handle, h = k > 0 the k-th kept
+        handle of the entity (a fresh one when there is none)"""
+        lst = self.kept.get(i) or []
+        if h and lst:
+            return lst[(h - 1) % len(lst)][1]
+        return self.fetch(i)
+
+    def views(self):
+        """time stamps as the kept handles report them: [entity, route, created_at, updated_at]"""
+        out = []
+        for i in self.alive():
+            for route, o in self.kept.get(i, []):
+                row = [i, route]
+                for a in ("created_at", "updated_at"):
+                    try:
+                        row.append(getattr(o, a))
+                    except Exception as ex:
+                        row.append("ERR:" + exc_name(ex))
+                out.append(row)
+        return out
+
     def stamps(self):
         out = []
+        memo = {}
         for i in self.alive():
             row = [i]
             try:
-                o = self.fetch(i)
+                o = self.fetch(i, memo)
             except Exception as ex:
                 out.append([i, "FETCH:" + type(ex).__name__, "FETCH:" + type(ex).__name__])
                 continue
@@ -199,6 +250,7 @@ class Session:
         self.clock.t = clock
         self.f = nix.File.open(self.path, nix.FileMode.Overwrite, auto_update_timestamps=auto)
         self.ents = [{"kind": "file", "parent": 0, "alive": True, "name": None, "id": None}]
+        self.kept = {}
 
     def close(self):
         if self.f is not None:
@@ -240,10 +292,16 @@ class Session:
             raise RuntimeError("unknown kind")
         self.ents.append({"kind": kind, "parent": parent, "alive": True, "name": getattr(o, "name", None),
                           "id": o.id})
+        me = len(self.ents) - 1
+        self.keep_handle(me, "returned by create_%s" % kind, o)
+        if kind == "multi_tag" and isinstance(args.get("positions"), int):
+            self.keep_handle(args["positions"], "multi_tag.positions", o.positions)
+        if kind == "feature" and isinstance(args.get("data"), int):
+            self.keep_handle(args["data"], "feature.data", o.data)
 
     def do_call(self, e, via, m, inp, args):
         nix = _nix()
-        o = self.fetch(e)
+        o = self.actor(e, args.get("h", 0))
         v = args.get("value")
         ref = args.get("ref")
         if ref is not None:
@@ -252,6 +310,15 @@ class Session:
         if v == "@odml_int":
             import nixio.property
             v = nixio.property.OdmlType.Int
+        if v == "@linktype_tagged":
+            v = nix.LinkType.Tagged
+        if args.get("tuple") and isinstance(v, list):
+            v = tuple(v)
+        # what the attribute reads as before / after the call (through a fresh handle), to know whether the call
+        # *changed* it; a method that adds a dimension always changes the entity when it returns
+        observe = how == "set" and via is None and m in LISTED
+        self.last_call = {"changed": None}
+        before = self.read_attr(e, m) if observe else None
         if how == "set":
             if m == "data_extent" and isinstance(v, list):
                 v = tuple(v)
@@ -270,9 +337,34 @@ class Session:
             del cont[self.ents[ref]["name"]]
         else:
             raise RuntimeError("unknown call style")
+        if observe:
+            after = self.read_attr(e, m)
+            if before[0] == "ok" and after[0] == "ok":
+                self.last_call["changed"] = before != after
+            elif before[0] != after[0]:
+                self.last_call["changed"] = True
+        elif how == "call" and via is None and m in LISTED:
+            self.last_call["changed"] = True
+        # a handle on the linked entity obtained through the new link stays alive
+        if ref is not None and self.keep:
+            try:
+                if how == "container" and m == "append":
+                    self.keep_handle(ref, "%s.%s[name]" % (self.ents[e]["kind"], args["container"]),
+                                     getattr(self.fetch(e), args["container"])[self.ents[ref]["name"]])
+                elif how == "set" and m in ("positions", "extents", "data", "metadata", "link"):
+                    self.keep_handle(ref, "%s.%s" % (self.ents[e]["kind"], m), getattr(self.fetch(e), m))
+            except Exception:
+                pass
 
-    def do_force(self, which, e, t):
-        o = self.fetch(e)
+    def read_attr(self, e, m):
+        """canonical reading of attribute m of entity e through a fresh handle"""
+        try:
+            return ("ok", canon_value(getattr(self.fetch(e), m)))
+        except Exception as ex:
+            return ("raised", type(ex).__name__)
+
+    def do_force(self, which, e, t, h=0):
+        o = self.actor(e, h)
         fn = getattr(o, "force_%s_at" % which)
         if t is None:
             fn()
@@ -297,6 +389,7 @@ class Session:
                 dead.add(i)
         for i in dead:
             self.ents[i]["alive"] = False
+            self.kept.pop(i, None)
 
     def apply(self, op):
         """-> {"res":…, "auto":…, "stamps":…}  canonicalised like the driver's output"""
@@ -304,6 +397,8 @@ class Session:
         name = op[0]
         args = op[-1] if isinstance(op[-1], dict) else {}
         res = "done"
+        self.last_call = None
+        self.last_views = []
         try:
             if name == "open":
                 self.close()
@@ -313,9 +408,9 @@ class Session:
             elif name == "call":
                 self.do_call(op[1], op[2], op[3], op[4], args)
             elif name == "force_created":
-                self.do_force("created", op[1], op[2])
+                self.do_force("created", op[1], op[2], args.get("h", 0))
             elif name == "force_updated":
-                self.do_force("updated", op[1], op[2])
+                self.do_force("updated", op[1], op[2], args.get("h", 0))
             elif name == "set_auto":
                 self.f.auto_update_timestamps = op[1]
             elif name == "set_clock":
@@ -323,6 +418,7 @@ class Session:
             elif name == "delete":
                 self.do_delete(op[1])
             elif name == "reopen":
+                self.kept = {}
                 self.f.close()
                 self.f = nix.File.open(self.path, nix.FileMode.ReadWrite, auto_update_timestamps=op[1])
             else:
@@ -331,10 +427,39 @@ class Session:
             res = "raised:" + exc_name(ex)
             self.last_exc = "%s: %s" % (type(ex).__name__, str(ex)[:200])
         out = {"res": res, "auto": bool(self.f.auto_update_timestamps), "stamps": self.stamps()}
+        if self.keep:
+            # a handle obtained earlier must report what a fresh handle reports (the model has no per-handle state:
+            # the key is present only when they differ)
+            fresh = {r[0]: r[1:] for r in out["stamps"]}
+            self.last_views = self.views()
+            stale = [r for r in self.last_views if fresh.get(r[0]) != r[2:]]
+            if stale:
+                out["stale_handles"] = stale[:4]
+        if name in ("set_clock", "set_auto", "force_created", "force_updated") or (
+                name == "call" and args.get("how", "set") == "set"):
+            return out       # assignments and session operations neither add nor remove entities
         w, t = self.walk_ids(), self.tracked_ids()
         if w != t:
             out["untracked"] = {"walk": len(w), "tracked": len(t)}
         return out
+
+
+def canon_value(v):
+    """attribute values in a comparable form (entities by id, sequences as lists, enums by value)"""
+    import numpy as np
+    if v is None or isinstance(v, (str, bool, int, float)):
+        return v
+    if isinstance(v, bytes):
+        return v.decode("utf-8", "replace")
+    if isinstance(v, np.generic):
+        return v.item()
+    if isinstance(v, (list, tuple, np.ndarray)):
+        return [canon_value(x) for x in v]
+    if hasattr(v, "id") and hasattr(v, "_h5group"):
+        return ["entity", v.id]
+    if hasattr(v, "value") and hasattr(v, "name"):
+        return ["enum", canon_value(v.value)]
+    return repr(v)
 
 
 def canon_model(op, m):
@@ -474,7 +599,10 @@ CATALOGUE = {
         ("positions", None, "early", lambda g: _v(None)),
         ("extents", None, "good", lambda g: (lambda x: None if x is None else {"how": "set", "ref": x})(
             g.pick("data_array", block_of=g.cur))),
+        ("extents", None, "good", lambda g: _v(None)),
+        ("extents", None, "early", lambda g: _v(5)),
         ("units", None, "good", lambda g: _v(g.rng.choice([["mV"], ["s"], None]))),
+        ("units", None, "good", lambda g: _v(g.rng.choice([None, []]))),
         ("units", None, "early", lambda g: _v([5])),
         ("append", "LinkContainer", "good", _link("references", "data_array")),
         ("append", "SourceLinkContainer", "good", _src_link),
@@ -700,11 +828,11 @@ class Gen:
                 self.ents[e]["novalues"] = (m == "delete_values" or not args.get("value"))
             if inp == "good" and m == "extend_values":
                 self.ents[e]["novalues"] = False
-        if m == "extents" and kind == "multi_tag" and inp == "good" and self.ents[e].get("has_extents"):
-            return None
-        if m == "extents" and kind == "multi_tag":
-            self.ents[e]["has_extents"] = True
         self.count("call.%s.%s.%s" % (kind, m, inp))
+        if self.rng.random() < 0.5:
+            # through a handle that was obtained earlier and kept (0 / absent = a freshly fetched one)
+            args = dict(args, h=self.rng.randint(1, 3))
+            self.count("call.through_kept_handle")
         return ["call", e, via, m, inp, args]
 
     def op_force(self):
@@ -729,6 +857,9 @@ class Gen:
             self.count("force.bad_type")
         if self.ents[e]["kind"] == "feature":
             self.count("force.on_feature")
+        if self.rng.random() < 0.5:
+            self.count("force.through_kept_handle")
+            return [which, e, t, {"h": self.rng.randint(1, 3)}]
         return [which, e, t]
 
     def op_delete(self):
@@ -809,6 +940,126 @@ class Gen:
                     if op:
                         ops.append(op)
         return ops
+
+
+# ---------------------------------------------------------------------------------------
+# the listed attributes x every kind of value their setters accept x the state they meet
+#
+# For every entity kind and every attribute of the property's list that the kind has: the values the setter accepts,
+# split into "sets" (the attribute holds something afterwards) and "clears" (None, empty list, empty text: the
+# attribute is removed).  matrix_histories() turns each pair into a short history that meets every value class in
+# both states (attribute present / absent): set, overwrite, clear, clear again, set again, ... with the clock
+# advanced before every call, first with the switch on, then switched off.  Whether a call *changed* the attribute
+# is read off the attribute's getter, so the oracle requires updated_at == clock exactly when the text does.
+
+R = "@ref"       # ("@ref", scene index): an entity of the scene
+
+
+def scene_ops(clock, auto):
+    """a small file with every entity kind; indices: 1 block, 2/3 sections, 4/5/6 arrays, 7 frame, 8 tag, 9 multi tag
+    (positions 4), 10 group, 11 source, 12 property (of 2), 13 feature of 8 (data 5), 14 feature of 9 (data 6)"""
+    c = lambda kind, parent, **a: ["create", kind, parent, "good", a]
+    return [["open", clock, auto],
+            c("block", 0, name="b", type="t"), c("section", 0, name="s1", type="t"),
+            c("section", 0, name="s2", type="t"), c("data_array", 1, name="a1", type="t"),
+            c("data_array", 1, name="a2", type="t"), c("data_array", 1, name="a3", type="t"),
+            c("data_frame", 1, name="f1", type="t"), c("tag", 1, name="t1", type="t"),
+            c("multi_tag", 1, name="m1", type="t", positions=4), c("group", 1, name="g1", type="t"),
+            c("source", 1, name="o1", type="t"), c("property", 2, name="p1", values=[1, 2]),
+            c("feature", 8, data=5, link_type="untagged"), c("feature", 9, data=6, link_type="untagged")]
+
+
+SCENE_INDEX = {"block": 1, "section": 2, "data_array": 4, "data_frame": 7, "tag": 8, "multi_tag": 9, "group": 10,
+               "source": 11, "property": 12, "feature": 13}
+
+TEXT = (["x1", "x2", ""], [None])
+VALUE_CLASSES = {
+    ("*", "type"): (["ty1", "ty2"], []),
+    ("*", "definition"): TEXT,
+    ("*", "label"): TEXT,
+    ("*", "reference"): TEXT,
+    ("*", "repository"): TEXT,
+    ("*", "unit"): (["mV", "s", " k Hz"], [None, ""]),
+    ("*", "polynom_coefficients"): ([[1.0, 0.5], [2.0], (0.0, 1.0, 3.0)], [None, [], ()]),
+    ("*", "expansion_origin"): ([0.5, 2, 0, 0.0], [None]),
+    ("*", "position"): ([[1.5], [2.0, 3.0], 3.0, (4.0,)], [None, [], ()]),
+    ("*", "extent"): ([[0.5], [1.0, 1.0], 2.0], [None, [], ()]),
+    ("*", "units"): ([["mV"], ["s", "mV"], ("kHz",)], [None, [], ()]),
+    ("data_frame", "units"): ([["mV", None], ["s", "kHz"], [None, "mV"]], [[None, None]]),
+    ("multi_tag", "positions"): ([(R, 5), (R, 6), (R, 4)], []),
+    ("multi_tag", "extents"): ([(R, 5), (R, 6)], [None]),
+    ("feature", "link_type"): (["tagged", "indexed", "Untagged", "@linktype_tagged"], []),
+    ("feature", "data"): ([(R, 4), (R, 6), (R, 7), (R, 5)], []),
+    ("data_array", "append_set_dimension"): ([_call(), _call(["a", "b"]), _call(labels=[])], []),
+    ("data_array", "append_sampled_dimension"): ([_call(0.5, "time", "s", 0.25), _call(2), _call(1, label=None)], []),
+    ("data_array", "append_range_dimension"): ([_call([1.0, 2.0, 4.0], "x", "mV"), _call(), _call(ticks=[])], []),
+    ("data_array", "append_range_dimension_using_self"): ([_call(), _call([-1])], []),
+}
+
+
+def listed_pairs():
+    """(kind, member) for every listed attribute the entity classes have, by introspection of the classes"""
+    nix = _nix()
+    import nixio.property
+    import nixio.feature
+    classes = {"block": nix.Block, "group": nix.Group, "data_array": nix.DataArray, "data_frame": nix.DataFrame,
+               "tag": nix.Tag, "multi_tag": nix.MultiTag, "source": nix.Source, "section": nix.Section,
+               "property": nixio.property.Property, "feature": nixio.feature.Feature}
+    out = []
+    for k, c in classes.items():
+        for m in LISTED:
+            obj = inspect.getattr_static(c, m, None)
+            if isinstance(obj, property) and obj.fset is not None:
+                out.append((k, m))
+            elif m.startswith("append_") and callable(obj):
+                out.append((k, m))
+    return out
+
+
+def matrix_histories(rng, dist=None):
+    """-> list of (label, ops)"""
+    out = []
+    missing = []
+    for kind, m in listed_pairs():
+        vc = VALUE_CLASSES.get((kind, m), VALUE_CLASSES.get(("*", m)))
+        if vc is None:
+            missing.append("%s.%s" % (kind, m))
+            continue
+        sets, clears = vc
+        e = SCENE_INDEX[kind]
+        seq = []
+        for c in clears:
+            seq += [sets[0], c, c]           # present -> cleared -> cleared again
+        for v in sets:
+            seq.append(v)                    # absent -> present, then overwriting
+        for c in clears[:1]:
+            seq += [c, sets[-1]]
+        off = [sets[0]] + list(clears[:1]) + [sets[-1]]
+        clock = rng.randrange(0, T2100 - 10 ** 7)
+        ops = scene_ops(clock, True)
+        for phase, values in (("on", seq), ("off", off)):
+            if phase == "off":
+                ops.append(["set_auto", False])
+            for v in values:
+                clock += rng.choice([1, 2, 59, 3600, 86400])
+                ops.append(["set_clock", clock])
+                if isinstance(v, dict):
+                    args = dict(v)
+                elif isinstance(v, tuple) and len(v) == 2 and v[0] == R:
+                    args = {"how": "set", "ref": v[1]}
+                else:
+                    args = {"how": "set", "value": list(v) if isinstance(v, tuple) else v}
+                    if isinstance(v, tuple):
+                        args["tuple"] = True
+                args["h"] = rng.choice([0, 0, 1, 2])
+                ops.append(["call", e, None, m, "good", args])
+                if dist is not None:
+                    key = "matrix.%s.%s" % (kind, m)
+                    dist[key] = dist.get(key, 0) + 1
+        out.append(("%s.%s" % (kind, m), ops))
+    if dist is not None and missing:
+        dist["matrix.no_value_classes_for"] = missing
+    return out
 
 
 # ---------------------------------------------------------------------------------------
@@ -919,6 +1170,11 @@ def correspondence(ctx):
     g = Gen(rng)
     histories.append(("sweep", g.sweep()))
     opdist = dict(g.dist)
+    mats = matrix_histories(rng, opdist)
+    if ctx.quick():
+        mats = rng.sample(mats, min(len(mats), 12))
+    for label, h in mats:
+        histories.append(("matrix:" + label, h))
     for k in range(ctx.budget(14, 150)):
         g = Gen(rng)
         histories.append(("random", g.history(rng.choice([40, 80, 120]))))
@@ -954,7 +1210,10 @@ def correspondence(ctx):
             "rule": "time_to_str on sampled (thorough: all) days 1970-2100 at sampled seconds + boundary and out-of-range "
                     "values; str_to_time on canonical-shape strings with valid and invalid field values; one sweep "
                     "history calling every catalogue entry of every entity kind under both switch settings with the "
-                    "clock advanced before each call; seeded random histories (create / call / force / toggle / "
+                    "clock advanced before each call; value-class matrix histories (every listed attribute x every "
+                    "kind of value its setter accepts, clearing values included, x attribute present / absent); "
+                    "operations go through freshly fetched handles or through handles kept from earlier, and the "
+                    "stamps are read through all of them; seeded random histories (create / call / force / toggle / "
                     "clock / delete / reopen) on real HDF5 files, the created_at and updated_at of ALL entities and the "
                     "set of entity ids in the file compared after every operation. non-trivial = distinct "
                     "(operation, outcome, population size)",
@@ -1022,7 +1281,10 @@ def oracle_roundtrip(ctx, n):
 
 
 def check_history(ctx, ops, tag):
-    """run a history on the implementation and test the property text directly on the observed time stamps"""
+    """run a history on the implementation and test the property text directly on the observed time stamps.  Every
+    entity is observed through a freshly fetched handle AND through every handle that was obtained earlier and kept
+    (the object a create_* call returned, objects reached through links): the property speaks about the entity,
+    whichever object of the program stands for it."""
     clock = Clock()
     sess = Session(ctx.tmpfile("c19-o%s.nix" % tag), clock)
     fails = []
@@ -1031,13 +1293,15 @@ def check_history(ctx, ops, tag):
         try:
             prev = None
             for k, op in enumerate(ops):
-                before = {r[0]: (r[1], r[2]) for r in (prev or [])}
+                before = prev or {}
                 auto_before = bool(sess.f.auto_update_timestamps) if sess.f is not None else None
                 clock_before = clock.t
                 out = sess.apply(op)
                 n += 1
-                after = {r[0]: (r[1], r[2]) for r in out["stamps"]}
-                prev = out["stamps"]
+                after = {(r[0], "a fresh handle"): (r[1], r[2]) for r in out["stamps"]}
+                for r in sess.last_views:
+                    after[(r[0], "the handle " + r[1])] = (r[2], r[3])
+                prev = after
                 name = op[0]
                 hist = {"history": ops[:k + 1], "at": k}
 
@@ -1050,44 +1314,52 @@ def check_history(ctx, ops, tag):
                     break
                 target = op[1] if name in ("call", "force_created", "force_updated") else None
                 ok = out["res"] == "done"
-                for i, (c0, u0) in before.items():
-                    if i not in after:
+                for key, (c0, u0) in before.items():
+                    if key not in after:
                         continue
-                    c1, u1 = after[i]
+                    i, view = key
+                    c1, u1 = after[key]
+                    thru = "" if view == "a fresh handle" else " (read through %s)" % view
                     # creation time is fixed
                     if c1 != c0 and not (name == "force_created" and i == target):
-                        fail("created_at of entity %d changed as a side effect of %s" % (i, name), c1, c0,
+                        fail("created_at of entity %d changed as a side effect of %s%s" % (i, name, thru), c1, c0,
                              "entity.created_at")
                     # switch off: nothing but a force call changes a time stamp
                     if not auto_before and u1 != u0 and not (name == "force_updated" and i == target):
-                        fail("updated_at of entity %d changed with auto_update_timestamps off (%s)" % (i, name),
-                             u1, u0, "file.auto_update_timestamps")
+                        fail("updated_at of entity %d changed with auto_update_timestamps off (%s)%s"
+                             % (i, name, thru), u1, u0, "file.auto_update_timestamps")
                     # no other entity's update time
                     if u1 != u0 and i != target and name != "force_updated":
-                        fail("updated_at of entity %d changed by an operation on entity %s" % (i, target), u1, u0,
-                             "%s" % (op[3] if name == "call" else name))
+                        fail("updated_at of entity %d changed by an operation on entity %s%s" % (i, target, thru),
+                             u1, u0, "%s" % (op[3] if name == "call" else name))
                     # never backwards while the clock does not (history without force into the future)
                     if (name not in ("force_updated",) and isinstance(u0, int) and isinstance(u1, int)
                             and u1 < u0 and u0 <= clock_before):
-                        fail("updated_at of entity %d moved backwards" % i, u1, u0, name)
-                # switch on: a listed attribute sets exactly that entity's update time to the clock
+                        fail("updated_at of entity %d moved backwards%s" % (i, thru), u1, u0, name)
+                # switch on: changing a listed attribute sets exactly that entity's update time to the clock
+                changed = (sess.last_call or {}).get("changed")
                 if (name == "call" and ok and auto_before and op[3] in LISTED and op[2] is None
-                        and 0 <= clock.t < T2100 and target in after):
-                    if after[target][1] != clock.t:
-                        fail("setting %s.%s with auto_update_timestamps on did not set updated_at to the current time"
-                             % (sess.ents[target]["kind"], op[3]), after[target][1], clock.t,
-                             "%s.%s" % (CLS_OF[sess.ents[target]["kind"]], op[3]))
+                        and 0 <= clock.t < T2100 and changed):
+                    for (i, view), (c1, u1) in after.items():
+                        if i == target and u1 != clock.t:
+                            thru = "" if view == "a fresh handle" else " (read through %s)" % view
+                            fail("changing %s.%s with auto_update_timestamps on did not set updated_at to the "
+                                 "current time%s" % (sess.ents[target]["kind"], op[3], thru), u1, clock.t,
+                                 "%s.%s" % (CLS_OF[sess.ents[target]["kind"]], op[3]))
                 # force round trip
                 if name in ("force_created", "force_updated") and ok and isinstance(op[2], int) \
-                        and not isinstance(op[2], bool) and 0 <= op[2] < T2100 and target in after:
-                    got = after[target][0 if name == "force_created" else 1]
-                    if got != op[2]:
-                        fail("%s(%d) read back differently" % (name, op[2]), got, op[2], "entity.%s_at" % name)
+                        and not isinstance(op[2], bool) and 0 <= op[2] < T2100:
+                    for (i, view), st in after.items():
+                        got = st[0 if name == "force_created" else 1]
+                        if i == target and got != op[2]:
+                            thru = "" if view == "a fresh handle" else " (read through %s)" % view
+                            fail("%s(%d) read back differently%s" % (name, op[2], thru), got, op[2],
+                                 "entity.%s_at" % name)
                 if name == "reopen" and ok:
-                    for i in before:
-                        if i in after and after[i] != before[i]:
-                            fail("time stamps of entity %d changed by closing and re-opening the file" % i,
-                                 list(after[i]), list(before[i]), "File.open")
+                    for key in before:
+                        if key[1] == "a fresh handle" and key in after and after[key] != before[key]:
+                            fail("time stamps of entity %d changed by closing and re-opening the file" % key[0],
+                                 list(after[key]), list(before[key]), "File.open")
         finally:
             sess.close()
     try:
@@ -1122,6 +1394,7 @@ def oracle(ctx, broken, hints):
         elif isinstance(h, list) and h and h[0] == "time_to_str" and isinstance(h[1], int) and 0 <= h[1] < T2100:
             pass
     hist += fixed_histories()
+    hist += [h for _, h in matrix_histories(rng)]
     g = Gen(rng)
     hist.append(g.sweep())
     for _ in range(40 if broken else ctx.budget(4, 40)):
